@@ -221,6 +221,12 @@ impl<T: RefCnt, Cfg: Config> CaS<T> for HybridStrategy<Cfg> {
             let old = <Self as InnerStrategy<T>>::load(self, storage);
             // Observation of their inequality is enough to make a verdict
             if old.as_ptr() != current.as_raw() {
+                // Get rid of the things we were given before we hand the answer out. Their
+                // destructors are arbitrary code and if one of them panicked once `old` is on its
+                // way out as the return value, nobody would release it any more (its debt slot
+                // would stay occupied).
+                drop(new);
+                drop(current);
                 return old;
             }
             // If they are still equal, put the new one in.
@@ -238,6 +244,8 @@ impl<T: RefCnt, Cfg: Config> CaS<T> for HybridStrategy<Cfg> {
                 // We just got one ref count out of the storage and we have one in old. We don't
                 // need two.
                 T::dec(old.as_ptr());
+                // See above.
+                drop(current);
                 return old;
             }
         }
